@@ -239,6 +239,25 @@ theorem probe_CLok (act : ProbeAct) (once : Bool) (r : Resp) (h : CLok r) : CLok
     · exact CLok_of_none (by simp)
     · exact CLok_congr rfl rfl h
 
+/-- `sessions.save`: collapsing the body keeps a numeric Content-Length right -/
+theorem sessions_CLok (r : Resp) (h : CLok r) : CLok (sessionsStep r).1 := by
+  unfold sessionsStep
+  split
+  · exact h
+  · simp only
+    split
+    · exact CLok_congr rfl rfl h
+    · split
+      · split
+        · exact CLok_congr rfl rfl h
+        · rename_i r' b hc
+          exact (collapse_CLok hc (CLok_congr (r := r) rfl rfl h)).1
+      · exact CLok_congr rfl rfl h
+
+/-- the autovary hook only sets Vary -/
+theorem autovary_CLok (r : Resp) (h : CLok r) : CLok (autovaryStep r).1 :=
+  CLok_congr (by simp [autovaryStep]) rfl h
+
 /-- every built-in step keeps the framing invariant, whether it returns or raises -/
 theorem applyStep_CLok (pg : Pages) (rq : Req) (cached : Bool) (s : Step) (r : Resp) (h : CLok r) :
     CLok (applyStep pg rq cached s r).1 := by
@@ -249,8 +268,29 @@ theorem applyStep_CLok (pg : Pages) (rq : Req) (cached : Bool) (s : Step) (r : R
   | gzip => exact gzip_CLok pg rq cached r h
   | tee => exact tee_CLok rq r h
   | probe act once => exact probe_CLok act once r h
+  | sessions => exact sessions_CLok r h
+  | autovary => exact autovary_CLok r h
 
-/-- ... and so does every *sequence* of steps, in any order and of any length -/
+/-- the failsafe hooks that still run after a failure keep it too -/
+theorem runFailsafe_CLok (pg : Pages) (rq : Req) (cached : Bool) (steps : List Step) (r : Resp) (e : Exn)
+    (h : CLok r) : CLok (runFailsafe pg rq cached steps r e).1 := by
+  induction steps generalizing r e with
+  | nil => exact h
+  | cons s rest ih =>
+    unfold runFailsafe
+    split
+    · have := applyStep_CLok pg rq cached s r h
+      split
+      · rename_i r' heq
+        rw [heq] at this
+        exact ih r' e this
+      · rename_i r' e' heq
+        rw [heq] at this
+        exact ih r' e' this
+    · exact ih r e h
+
+/-- ... and so does every *sequence* of steps, in any order and of any length (`HookMap.run` with its
+    failsafe continuation) -/
 theorem runSteps_CLok (pg : Pages) (rq : Req) (cached : Bool) (steps : List Step) (r : Resp) (h : CLok r) :
     CLok (runSteps pg rq cached steps r).1 := by
   induction steps generalizing r with
@@ -264,7 +304,7 @@ theorem runSteps_CLok (pg : Pages) (rq : Req) (cached : Bool) (steps : List Step
       exact ih r' this
     · rename_i r' e heq
       rw [heq] at this
-      exact this
+      exact runFailsafe_CLok pg rq cached rest r' e this
 
 
 /-! ### any tool mix: third-party steps that follow the rule -/
